@@ -1,5 +1,6 @@
 import Driver.Util
 import ClairModel.Model.TarFS
+import ClairModel.Model.TarFSExtract
 
 /-
   Line protocol of property C11 (see go/internal/c11):
@@ -7,6 +8,7 @@ import ClairModel.Model.TarFS
     reset                                   -> ok
     m <kind> <name> <link> <data>           -> ok          (append a member; kind r d s l x; hex fields)
     new                                     -> ok <inodes> <keys> | err:<class>
+    xtree                                   -> the extraction reference (Model/TarFSExtract) of the members: none | entries
     tables                                  -> canonical dump of the lookup and inode tables
     stat|open|readdir|glob <subs> <arg>     -> answer of the query on the view (after Sub along <subs>)
     walk <subs> <cap>                       -> fs.WalkDir listing, at most <cap> visits
@@ -142,9 +144,19 @@ def query (fs : FS) (q : String) (arg : String) : String :=
       | "glob" => renderList ((globFS fs a).map Driver.hex)
       | _ => "bad-op"
 
+def renderXTree (t : XTree) : String :=
+  renderList ((t.map fun (k, n) =>
+    match n with
+    | .dir => s!"{Driver.hex k}:d"
+    | .file d => s!"{Driver.hex k}:f:{d.length}:{fnv d}").mergeSort strLe)
+
 def stepLine (s : St) (l : String) : St × String :=
   match Driver.words l with
   | ["reset"] => ({}, "ok")
+  | ["xtree"] =>
+    match extract s.ms.reverse with
+    | some t => (s, renderXTree t)
+    | none => (s, "none")
   | ["m", k, n, lk, d] =>
     match parseKind k, Driver.unhex n, Driver.unhex lk, Driver.unhex d with
     | some k, some n, some lk, some d => ({ s with ms := ⟨k, n, lk, d⟩ :: s.ms }, "ok")
